@@ -125,7 +125,9 @@ class Event(object):
         self.callbacks.remove(cb)
 
     def got_update(self, data):
-        for cb in self.callbacks:
+        # iterate over a copy: a listener may unsubscribe itself (or
+        # another listener) from inside its callback
+        for cb in list(self.callbacks):
             try:
                 cb(data)
             except Exception as e:
